@@ -157,6 +157,50 @@ def comparator_controls(chk, behs, tmpdir, seed):
 
 
 # ------------------------------------------------------------------ the check
+def shared_dictionary(chk, tmpdir):
+    """Several live models built from ONE dictionary object (and the caller keeps it): loading a file with another
+    dictionary into one of them replaces that model's dictionary only - the siblings, the caller's dictionary and
+    whatever the siblings save afterwards are as before."""
+    import os
+    import torch
+    from qucumber.nn_states import ComplexWaveFunction, DensityMatrix
+    from qucumber.utils import unitaries
+
+    def snap(d):
+        return {k: v.detach().clone() for k, v in d.items()}
+
+    def same(d, e):
+        return sorted(d) == sorted(e) and all(torch.equal(d[k], e[k]) for k in d)
+    h = torch.tensor([[[1.0, 1.0], [1.0, -1.0]], [[0.0, 0.0], [0.0, 0.0]]], dtype=torch.double) / 2 ** 0.5
+    sg = torch.tensor([[[1.0, 0.0], [0.0, 0.0]], [[0.0, 0.0], [0.0, 1.0]]], dtype=torch.double)
+    for typ, cls, args in (("complex", ComplexWaveFunction, (2, 2)), ("density", DensityMatrix, (2, 2, 2))):
+        D = unitaries.create_dict(H=h)
+        a = cls(*args, unitary_dict=D, gpu=False)
+        b = cls(*args, unitary_dict=D, gpu=False)
+        other = cls(*args, unitary_dict=unitaries.create_dict(S=sg), gpu=False)
+        D0, a0 = snap(D), snap(a.unitary_dict)
+        f1, f2, f3 = (os.path.join(tmpdir, "shared-%s-%d.pt" % (typ, i)) for i in (1, 2, 3))
+        a.save(f1)
+        other.save(f2)
+        b.load(f2)
+        a.save(f3)
+        chk.evaluations += 4
+        det = dict(state_type=typ, scenario="a, b built from one dictionary D (keys X Y Z H); b.load(file with keys X Y Z S)")
+        if not same(b.unitary_dict, other.unitary_dict):
+            chk.violation("shared-dictionary:%s:loaded-model" % typ, dict(det, keys=sorted(b.unitary_dict)))
+        if not same(a.unitary_dict, a0):
+            chk.violation("shared-dictionary:%s:sibling-changed" % typ, dict(det, sibling_keys=sorted(a.unitary_dict), before=sorted(a0)))
+        if not same(D, D0):
+            chk.violation("shared-dictionary:%s:callers-dictionary-changed" % typ, dict(det, keys=sorted(D), before=sorted(D0)))
+        d1, d3 = torch.load(f1), torch.load(f3)
+        if not same(d1["unitary_dict"], d3["unitary_dict"]):
+            chk.violation("shared-dictionary:%s:two-saves-differ" % typ, dict(det, first=sorted(d1["unitary_dict"]), second=sorted(d3["unitary_dict"])))
+        c = cls.autoload(f3)
+        if not same(c.unitary_dict, a0):
+            chk.violation("shared-dictionary:%s:autoload" % typ, dict(det, keys=sorted(c.unitary_dict)))
+        chk.nontriv(("shared-dictionary", typ))
+
+
 def run(tier, seed):
     chk = common.Check(PID, tier, seed)
     cfg = TIERS[tier]
@@ -225,6 +269,12 @@ def run(tier, seed):
         chk.extra["exercised"] = cover
         # -- ModelSaver through real multi-epoch fits
         ps.run_all(chk, tmpdir, seed, epochs=cfg["saver_epochs"], thorough=(tier == "thorough"))
+        try:
+            shared_dictionary(chk, tmpdir)
+        except common.MachineryError:
+            raise
+        except Exception as ex:
+            chk.violation("shared-dictionary:exception:" + type(ex).__name__, dict(error=repr(ex)))
         # -- negative controls on the comparator / injected faults
         comparator_controls(chk, [b for _, b in behs], tmpdir, seed)
         ps.controls(chk, tmpdir, seed, soft_control(chk))
